@@ -93,6 +93,18 @@ class Replayer:
         idxs = [self.rng.randrange(N) for _ in range(B)]          # repeats, arbitrary order
         return idxs, L.space_tensor([self.tb.rows[n][k] for k in idxs])
 
+    BIG = (129, 300, 1500, 5000, 20000, 70001)
+
+    def big_batch(self, letters):
+        """a batch far longer than the basis (a sample set, as in training and in KL/NLL): sizes straddling
+        powers of two, bounded so that the expansion (4^k terms per row for rho) stays small"""
+        n = len(letters)
+        k = sum(1 for b in letters if b != "Z")
+        ok = [B for B in self.BIG if B * 4 ** k <= 1_200_000] or [129]
+        B = ok[-1] if self.rng.random() < 0.5 else self.rng.choice(ok)
+        idxs = np.array([self.rng.randrange(2 ** n) for _ in range(B)])
+        return idxs, L.space_tensor(self.tb.rows[n])[idxs]
+
     def cls(self, letters):
         return "user" if set(letters) - {"X", "Y", "Z"} else "xyz"
 
@@ -122,6 +134,13 @@ class Replayer:
         exp = [y[k] for k in idxs]
         if err > L.INT_TOL or got != exp:
             self.bad("rotate_psi_inner_prod:explicit-psi:" + cls, case, how, outcomes=idxs, expected=exp, got=got)
+        if self.count % 9 == 0:
+            bi, bs = self.big_batch(letters)
+            got = L.cplx.numpy(un.rotate_psi_inner_prod(state, basis, bs, unitaries=arg, psi=t)) * sc
+            want = np.array([complex(*q) for q in y])[bi]
+            self.chk.evaluations += 1
+            if got.shape != want.shape or np.max(np.abs(got - want)) > L.INT_TOL * max(1.0, float(np.max(np.abs(want)))):
+                self.bad("rotate_psi_inner_prod:large-batch:explicit-psi:" + cls, case, how, rows=len(bi))
         # include_extras: the terms of the expansion, paired with the expanded rows
         tot, terms, v = un.rotate_psi_inner_prod(state, basis, states, unitaries=arg, psi=t, include_extras=True)
         gt, e1 = L.to_gauss(tot, sc)
@@ -167,6 +186,13 @@ class Replayer:
             self.bad("rotate_rho_probs:explicit-rho" if transposed else "rotate_rho_probs:explicit-rho:other:" + cls,
                      case, how, outcomes=idxs, expected=diag, got=got,
                      note="equals diag(U rho^T U^H)" if transposed else "")
+        if self.count % 9 == 0:
+            bi, bs = self.big_batch(letters)
+            got = un.rotate_rho_probs(state, basis, bs, unitaries=arg, rho=t).detach().cpu().numpy() * sc
+            want = np.array([float(y[k][k][0]) for k in range(N)])[bi]
+            self.chk.evaluations += 1
+            if got.shape != want.shape or np.max(np.abs(got - want)) > L.INT_TOL * max(1.0, float(np.max(np.abs(want)))):
+                self.bad("rotate_rho_probs:large-batch:explicit-rho:" + cls, case, how, rows=len(bi))
         tot, terms, v = un.rotate_rho_probs(state, basis, states, unitaries=arg, rho=t, include_extras=True)
         gt, e1 = L.to_ints(tot, sc)
         gterms, e2 = L.to_gauss(terms, sc)          # [t][t2][b]
@@ -253,6 +279,13 @@ class Replayer:
                 ok = ok and set(want) == set(have) and all(abs(want[q] - have[q]) <= tol for q in want)
             if not ok:
                 self.chk.violation("rotate_psi_inner_prod:extras:model:" + skind, how)
+            if c % 3 == 0:
+                bi, bs = self.big_batch(letters)
+                got = L.cplx.numpy(un.rotate_psi_inner_prod(state, basis, bs, unitaries=arg))
+                self.chk.evaluations += 1
+                if got.shape != (len(bi),) or not np.allclose(got, exp[bi], rtol=0, atol=tol):
+                    w = int(np.argmax(np.abs(got - exp[bi]))) if got.shape == (len(bi),) else -1
+                    self.chk.violation("rotate_psi_inner_prod:large-batch:model:" + skind, dict(how, outcomes=None, rows=len(bi), worst_row=w))
             # probabilities of the (physical) model state sum to its normalisation in every basis
             p = np.abs(got_full(un, state, basis, space, arg)) ** 2
             if abs(p.sum() - Z) > 1e-10 * Z:
@@ -286,6 +319,13 @@ class Replayer:
                 ok = ok and (straight or swapped)
             if not ok:
                 self.chk.violation("rotate_rho_probs:extras:model", how)
+            if c % 3 == 0:
+                bi, bs = self.big_batch(letters)
+                got = un.rotate_rho_probs(state, basis, bs, unitaries=arg).detach().cpu().numpy()
+                self.chk.evaluations += 1
+                if got.shape != (len(bi),) or not np.allclose(got, ed[bi], rtol=0, atol=tol):
+                    w = int(np.argmax(np.abs(got - ed[bi]))) if got.shape == (len(bi),) else -1
+                    self.chk.violation("rotate_rho_probs:large-batch:model", dict(how, outcomes=None, rows=len(bi), worst_row=w))
             full = un.rotate_rho_probs(state, basis, space, unitaries=arg).detach().cpu().numpy()
             if full.min() < -1e-12 * Z or abs(full.sum() - Z) > 1e-10 * Z:
                 self.chk.violation("normalisation:model:density", dict(how, minimum=float(full.min()), total=float(full.sum()), Z=Z))
